@@ -599,7 +599,38 @@ fn diamond() {
         rounds.push(out.unwrap_or_else(|_| vec![i64::MAX]));
     }
     let ok = rounds.iter().all(|v| *v == vec![-1, -1, -1, -1, -1]);
-    println!("{{\"all_defaults\":{ok},\"rounds\":{:?}}}", rounds);
+    // a 3-cycle Head -> Mid -> Tail -> Head whose head reads Mid and three slow off-cycle siblings from
+    // spawned tasks: when Tail asks for Head, the cycle search walks Head's callees, of which only one
+    // reaches the target while the others are still computing.  12 independent key sets, so that the
+    // iteration order of the callee map cannot hide a wrong accumulation of the answers.
+    let mut prog3 = Program::default();
+    let mut heads = Vec::new();
+    for k in 0..12u32 {
+        let b = 100 + 10 * k;
+        let (head, mid, tail, s1, s2, s3) = (n(b), n(b + 1), n(b + 2), n(b + 3), n(b + 4), n(b + 5));
+        prog3.exprs.insert(head, Expr::Spawn(vec![s1, mid, s2, s3]));
+        prog3.exprs.insert(mid, plus(Expr::Read(tail), 1));
+        prog3.exprs.insert(tail, plus(Expr::Delay(40, Box::new(Expr::Read(head))), 2));
+        for (j, sn) in [s1, s2, s3].into_iter().enumerate() { prog3.exprs.insert(sn, Expr::Delay(250, Box::new(Expr::Const(7 + j as i64)))); }
+        heads.push((head, mid, tail));
+    }
+    let w3 = World::new(prog3, 0);
+    let tri = runtime.block_on(async {
+        let engine = open_mem(&w3).await;
+        { let mut s = engine.input_session().await; s.set_input(Var(0), 0).await; s.commit().await; }
+        let mut bad = Vec::new();
+        for (k, (head, mid, tail)) in heads.iter().enumerate() {
+            let r = tokio::time::timeout(Duration::from_secs(8), async {
+                let mut vals = Vec::new();
+                for nd in [*head, *mid, *tail] { let r = run_op(&engine, &w3, &Op::Query(nd)).await; vals.push(match r.outcome { Outcome::Value(v) => v, _ => i64::MIN }); }
+                vals
+            }).await;
+            match r { Ok(v) if v == vec![-1, -1, -1] => {}, Ok(v) => bad.push(format!("key {k}: (Head, Mid, Tail) = {v:?}, expected the cycle defaults [-1, -1, -1]")), Err(_) => { bad.push(format!("key {k}: the evaluation of Head hangs")); break; } }
+        }
+        bad
+    });
+    let ok = ok && tri.is_empty();
+    println!("{{\"all_defaults\":{ok},\"rounds\":{:?},\"three_cycle_with_concurrent_siblings\":{:?}}}", rounds, tri);
     std::process::exit(0);
 }
 
